@@ -47,6 +47,14 @@ def block_comment(rng, multiline):
         body = body[:len(body) // 2] + b'\n' + body[len(body) // 2:]
     close = b']' + eq + b']'
     body = body.replace(b']', b')')
+    if rng.random() < 0.2:
+        # an opener inside a block comment opens nothing (the comment ends at the first closer of its level); commented-out code often
+        # holds one, and `--` before the closer is the usual toggle idiom
+        k = rng.randrange(len(body) + 1)
+        inner = rng.choice((b'--[' + eq + b'[', b'--[[', b'[' + eq + b'[', b'--[=[ x', b'-- '))
+        body = body[:k] + inner + body[k:]
+        if rng.random() < 0.4:
+            body += b'--'
     return b'--[' + eq + b'[' + body + close
 
 
